@@ -292,4 +292,5 @@ func init() {
 	registerTranslatorOps()
 	registerTLSIdentityOps()
 	registerServerOps()
+	registerTokColOps()
 }
